@@ -106,17 +106,32 @@ class DataclassGenerator(AbstractGenerator):
                     logger.debug(f"Importing: {name}")
                     importlib.import_module(name)
 
-        sys.path.insert(0, str(Path.cwd().absolute()))
+        cwd = Path.cwd().absolute()
         package = self.package_name(self.config.output.package)
 
         # Validate the modules that were just written, the interpreter may
-        # still hold modules of an earlier generation into the same package
-        stale = [n for n in sys.modules if n == package or n.startswith(f"{package}.")]
-        for name in stale:
+        # still hold modules of an earlier generation into the same package,
+        # or a parent package that was loaded from another directory
+        stale_root = package
+        parts = package.split(".")
+        for i in range(1, len(parts)):
+            parent = sys.modules.get(".".join(parts[:i]))
+            location = str(cwd.joinpath(*parts[:i]))
+            if parent and location not in map(str, getattr(parent, "__path__", [])):
+                stale_root = ".".join(parts[:i])
+                break
+
+        prefix = f"{stale_root}."
+        for name in [n for n in sys.modules if n == stale_root or n.startswith(prefix)]:
             del sys.modules[name]
 
+        sys.path.insert(0, str(cwd))
         importlib.invalidate_caches()
-        import_package(package)
+        try:
+            import_package(package)
+        finally:
+            # Earlier output directories must not answer for later generations
+            sys.path.remove(str(cwd))
 
     def render_package(self, classes: list[Class], module: str) -> str:
         """Render the package for the given classes.
